@@ -68,3 +68,58 @@ package security
 //@   ensures (counter.count >> 8) & 0xffff == uint32(overflow)
 //@   ensures counter.count & 0xff == old(counter.count) & 0xff
 //@ end
+
+// ---- C06 / C08: ciphering. spec.* are the definitions of /verif/spec (TS 35.215/35.216 UEA2, EEA3 v1.8, TS 33.401 B). ----
+
+//@ func NEA1(ck, countC, bearer, direction, ibs, length) (obs, err)
+//@   requires uint64(length) <= 8*uint64(len(ibs)) && len(ibs) < 0x10000000
+//@   assigns nothing
+//@   specfuel 999
+//@   opaque SnowKeystreamWord
+//@   loop 1 invariant i <= length/32 && len(obs) == len(ibs) && fresh(obs)
+//@   loop 1 invariant forall(j, 0, 4*int(i), obs[j] == spec.CipherOut(ibs[j], spec.EEA1KS(ck, countC, bearer, direction, j), length, j, true))
+//@   loop 1 invariant forall(j, 4*int(i), len(obs), obs[j] == 0)
+//@   loop 1 decreases int(length/32) - int(i)
+//@   ensures err == nil && len(obs) == len(ibs) && fresh(obs)
+//@   ensures forall(j, 0, len(ibs), obs[j] == spec.CipherOut(ibs[j], spec.EEA1KS(ck, countC, bearer, direction, j), length, j, true))
+//@   ensures implies(uint64(length) == 8*uint64(len(ibs)), forall(j, 0, len(ibs), obs[j] == ibs[j] ^ spec.EEA1KS(ck, countC, bearer, direction, j)))
+//@ end
+
+//@ func NEA2(key, count, bearer, direction, ibs) (obs, err)
+//@   assigns nothing
+//@   specfuel 999
+//@   opaque AESCTR
+//@   ensures err == nil && len(obs) == len(ibs) && fresh(obs)
+//@   ensures forall(j, 0, len(ibs), obs[j] == ibs[j] ^ spec.AESCTR(key, spec.EEA2CounterBlock(count, bearer, direction), j))
+//@ end
+
+//@ func NEA3(ck, count, bearer, direction, ibs, length) (obs, err)
+//@   requires uint64(length) <= 8*uint64(len(ibs)) && len(ibs) < 0x10000000
+//@   assigns nothing
+//@   specfuel 999
+//@   opaque ZucKeystreamWord
+//@   loop 1 invariant 0 <= i && i <= int(l) && len(obs) == len(ibs) && fresh(obs) && len(stream) == int(l)
+//@   loop 1 invariant forall(j, 0, len(obs), obs[j] == ite(j < 4*i && j < int((length+7)/8), ibs[j] ^ spec.EEA3KS(ck, count, bearer, direction, j), 0))
+//@   loop 1 decreases int(l) - i
+//@   loop 3 invariant int(length/8) + 1 <= j && len(obs) == len(ibs) && fresh(obs)
+//@   loop 3 invariant forall(m, 0, len(ibs), obs[m] == spec.CipherOut(ibs[m], spec.EEA3KS(ck, count, bearer, direction, m), length, m, false))
+//@   loop 3 decreases len(obs) - j
+//@   ensures err == nil && len(obs) == len(ibs) && fresh(obs)
+//@   ensures forall(j, 0, len(ibs), obs[j] == spec.CipherOut(ibs[j], spec.EEA3KS(ck, count, bearer, direction, j), length, j, false))
+//@   ensures implies(uint64(length) == 8*uint64(len(ibs)), forall(j, 0, len(ibs), obs[j] == ibs[j] ^ spec.EEA3KS(ck, count, bearer, direction, j)))
+//@ end
+
+//@ define EncOK(AlgoID, Bearer, Direction, payload) := Bearer <= 31 && Direction <= 1 && payload != nil && AlgoID <= 3
+
+//@ func NASEncrypt(AlgoID, KnasEnc, Count, Bearer, Direction, payload) (err)
+//@   requires len(payload) < 0x10000000
+//@   assigns payload[:]
+//@   specfuel 999
+//@   opaque EEA1KS, EEA3KS, AESCTR
+//@   ensures implies(!EncOK(AlgoID, Bearer, Direction, payload), err != nil)
+//@   ensures implies(EncOK(AlgoID, Bearer, Direction, payload), err == nil)
+//@   ensures implies(!EncOK(AlgoID, Bearer, Direction, payload) || AlgoID == 0, forall(j, 0, len(payload), payload[j] == old(payload[j])))
+//@   ensures implies(EncOK(AlgoID, Bearer, Direction, payload) && AlgoID == 1, forall(j, 0, len(payload), payload[j] == old(payload[j]) ^ spec.EEA1KS(KnasEnc, Count, uint32(Bearer), uint32(Direction), j)))
+//@   ensures implies(EncOK(AlgoID, Bearer, Direction, payload) && AlgoID == 2, forall(j, 0, len(payload), payload[j] == old(payload[j]) ^ spec.AESCTR(KnasEnc, spec.EEA2CounterBlock(Count, Bearer, Direction), j)))
+//@   ensures implies(EncOK(AlgoID, Bearer, Direction, payload) && AlgoID == 3, forall(j, 0, len(payload), payload[j] == old(payload[j]) ^ spec.EEA3KS(KnasEnc, Count, Bearer, Direction, j)))
+//@ end
